@@ -296,6 +296,33 @@ def case_model(ctx, k, cid):
         raises(ctx, kind + ":Network(A)", net, det, cid)
         return
     inet(ctx, kind, net, det, cid)
+    # the same generator through the dispatcher Network.Model(name, **kw):
+    # same seed, same graph, as a Network object
+    mk = {"ErdosRenyi:n_links": ("ErdosRenyi", dict(
+              n_nodes=det.get("n_nodes"), n_links=det.get("n_links"),
+              silence_level=3)),
+          "ErdosRenyi:link_probability": ("ErdosRenyi", dict(
+              n_nodes=det.get("n_nodes"),
+              link_probability=det.get("link_probability"),
+              silence_level=3)),
+          "BarabasiAlbert": ("BarabasiAlbert", dict(
+              n_nodes=det.get("n_nodes"),
+              n_links_each=det.get("n_links_each"))),
+          "Configuration": ("Configuration", dict(
+              degree=det.get("degree")))}.get(kind)
+    if mk is not None:
+        np.random.seed(seed)
+        pyrandom.seed(seed)
+        okm, nm = ctx.call(Network.Model, mk[0], **mk[1])
+        ctx.evals()
+        ctx.count("model_dispatch_cases")
+        if not okm:
+            if not (isinstance(nm, TypeError) and "degrees" in str(nm)):
+                raises(ctx, kind + ":Network.Model", nm, det, cid)
+        elif not isinstance(nm, Network) or not np.array_equal(
+                np.asarray(nm.adjacency), A):
+            ctx.violation(f"{kind}:Network.Model:differs-from-generator",
+                          det, cid)
     if k < 12:
         ctx.sample({"op": kind, **{a: b for a, b in det.items()
                                    if a != "edges"},
